@@ -104,6 +104,11 @@ theorem translate_returns {n : Nat} (G : TelModel.TR.Graph n) (hG : G.ok) (fixed
     (TelModel.TR.tr G hG fixed k s).1.set k = true ∧ s.le (TelModel.TR.tr G hG fixed k s).1 :=
   TRP.translate_returns G hG fixed k s
 
+/-- a pair that has been translated is not translated again: the second call returns the state unchanged -/
+theorem translate_idempotent {n : Nat} (G : TelModel.TR.Graph n) (hG : G.ok) (fixed : Bool) (k : Fin n) (s : TelModel.TR.St n) :
+    (TelModel.TR.tr G hG fixed k (TelModel.TR.tr G hG fixed k s).1).1 = (TelModel.TR.tr G hG fixed k s).1 :=
+  TRP.translate_idempotent G hG fixed k s
+
 /-- with the second look of the Boolean connectives (the repair of D17) the assertion in `StepData.add_literal` never fails -/
 theorem add_literal_assertion_holds {n : Nat} (G : TelModel.TR.Graph n) (hG : G.ok) (hr : G.rechecks) (k : Fin n)
     (s : TelModel.TR.St n) (h : s.err = false) : (TelModel.TR.tr G hG true k s).1.err = false :=
